@@ -114,6 +114,12 @@ def run_case(case, ctx):
         _check(tuple(cut(NB.bytes_to_nibbles, bytearray(b))) == refmpt.nibs(b), "bytes-nibbles", "bytes_to_nibbles(bytearray(%s)) differs" % hx(b))
         back = cut(NB.nibbles_to_bytes, n)
         _check(back == b, "bytes-nibbles", "nibbles_to_bytes(bytes_to_nibbles(%s))=%s" % (hx(b), hx(back)))
+        # an odd number of nibbles is no byte string: refused, or (if accepted) still invertible
+        odd = tuple(n) + (7,)
+        r = cut(NB.nibbles_to_bytes, odd, expect=(Exception,))
+        if not isinstance(r, Raised):
+            _check(tuple(cut(NB.bytes_to_nibbles, r)) == odd, "bytes-nibbles",
+                   "nibbles_to_bytes(%r) = %s: an odd-length sequence was accepted and does not convert back" % (odd, hx(r)))
         # the other direction on an even-length nibble string
         back2 = cut(NB.bytes_to_nibbles, cut(NB.nibbles_to_bytes, refmpt.nibs(b)))
         _check(tuple(back2) == refmpt.nibs(b), "bytes-nibbles", "nibbles->bytes->nibbles differs for %s" % hx(b))
